@@ -38,7 +38,7 @@ impl Matcher {
                     max_pos = i as u32;
                     max_score = score;
                     // can't get better than this
-                    if bonus >= self.config.bonus_boundary_white {
+                    if bonus >= self.config.max_bonus() {
                         break;
                     }
                 }
@@ -56,7 +56,7 @@ impl Matcher {
                     max_pos = i as u32;
                     max_score = score;
                     // can't get better than this
-                    if bonus >= self.config.bonus_boundary_white {
+                    if bonus >= self.config.max_bonus() {
                         break;
                     }
                 }
@@ -99,7 +99,7 @@ impl Matcher {
                 max_pos = i;
                 max_score = score;
                 // can't get better than this
-                if bonus >= self.config.bonus_boundary_white {
+                if bonus >= self.config.max_bonus() {
                     break;
                 }
             }
@@ -179,7 +179,7 @@ impl Matcher {
                     max_pos = i;
                     max_score = score;
                     // can't get better than this
-                    if bonus >= self.config.bonus_boundary_white {
+                    if bonus >= self.config.max_bonus() {
                         break;
                     }
                 }
@@ -224,7 +224,7 @@ impl Matcher {
                 max_pos = i as u32;
                 max_score = score;
                 // can't get better than this
-                if bonus >= self.config.bonus_boundary_white {
+                if bonus >= self.config.max_bonus() {
                     break;
                 }
             }
@@ -273,7 +273,7 @@ impl Matcher {
                 max_pos = i;
                 max_score = score;
                 // can't get better than this
-                if bonus >= self.config.bonus_boundary_white {
+                if bonus >= self.config.max_bonus() {
                     break;
                 }
             }
